@@ -1,7 +1,10 @@
 """C04 — in-progress executions survive an engine crash and restart.
 Every between-handler crash point of every scenario run (outcome preserved, no task re-requested, replies
 matched) and crash points after individual broker operations inside handlers (no loss: the execution still
-reaches a terminal status), followed by restart with redelivery; single and repeated crashes."""
+reaches a terminal status), followed by restart with redelivery; single and repeated crashes.
+Every crash run is also abstracted (harness/crashmodel.py: skeleton of the execution, schedule of the run) and given to
+the crash protocol model lean/AslModel/Crash.lean, which with the switches of the open findings on has to reproduce what
+the engine did; a run that breaks a law is a known finding exactly when the model needs that finding's switch for it."""
 import json
 import common, explore, enginerun, engine_props
 import sim as simmod
@@ -9,6 +12,11 @@ from common import cj, pj
 from machgen import ARN
 
 T = engine_props.T
+
+
+def cm_base(cid):
+    import crashmodel as cm
+    return cm.base_id(cid)
 
 
 def scenarios(thorough=False):
@@ -23,10 +31,12 @@ def scenarios(thorough=False):
             # by the limit, States.Timeout, and the exact classification of those findings needs to see it stuck)
             # (the large generated machines kept in corpus/engine.json for C02 / C11 are left out too: several of the open
             # findings combine in them in ways neither the model's skeletons nor the fallback classifier cover)
-            # (definitions the engine cannot interpret are C18's; the witnesses of the fan-out protocol findings are left out
-            # as well: their plans answer the n-th request, and a fan-out re-launched from its held event after a crash
-            # (the open findings C04-F2 / F4: join state is volatile) repeats requests, which shifts which attempt of the
-            # retried fan-out fails — like the gen* machines, a combination neither the model nor the classifiers cover)
+            # (definitions the engine cannot interpret are C18's: the reference semantics has no visits for them.  The witnesses of
+            # the fan-out protocol findings are left out as well: with the workers' plans indexed by attempt the crash model follows
+            # most of them, but not the three-level ones (`nested-pending-*-d3-*`: the model's tidy-up walks the attempts in another
+            # order than the engine, and a crash inside that handler leaves the two out of step), and with them the thorough tier
+            # does not stay under ten minutes; the quick scenarios `par-retry-vs-late-*` / `par-catch-vs-pending-sibling` and the
+            # corpus' `handled-fail-*` / `nested-*` machines keep handled fan-out failures in the check)
             if sc.extra.get("fail_payload") is None and "TimeoutSeconds" not in sc.machine and not sc.name.startswith(("oversize", "gen")) \
                     and sc.sm_type == "STANDARD" and not sc.extra.get("illformed") and not sc.extra.get("finding"):
                 sc.name = "corpus:" + sc.name
@@ -52,18 +62,75 @@ def scenarios(thorough=False):
     out.append(S("par2-fail", {"StartAt": "P", "States": {"P": {"Type": "Parallel", "End": True, "Branches": [
         {"StartAt": "A", "States": {"A": T("f1")}}, {"StartAt": "B", "States": {"B": T("f2")}}]}}},
         {"x": 1}, {"f1": [("ok",)], "f2": [("err", "Boom", "m")]}, {"f1": 30, "f2": 10}))
+    # a Map with MaxConcurrency whose iterations go on after their Task: the events held for a finished batch are redelivered
+    # after a crash and complete that batch a second time (C04-F7)
+    out.append(S("map2-mc1-task-pass", {"StartAt": "M", "States": {"M": {"Type": "Map", "ItemsPath": "$.items", "MaxConcurrency": 1, "End": True,
+        "Iterator": {"StartAt": "T", "States": {"T": T("g", Next="P"), "P": {"Type": "Pass", "End": True}}}}}},
+        {"items": [1, 2]}, {"g": [("ok",)]}, {"g": 10}))
+    # a Parallel state whose failure is retried while the nested Parallel state of the other branch has a Task outstanding: the
+    # Task is cancelled with the attempt (since the engine's repair cc40c48; before it the Task's late error, which the Retry
+    # does not match, was absorbed crash-free and ended the execution after a crash)
+    npar = {"Type": "Parallel", "End": True, "Branches": [{"StartAt": "X", "States": {"X": T("fx")}}]}
+    out.append(S("par-retry-vs-late-nested-fail", {"StartAt": "P", "States": {
+        "P": {"Type": "Parallel", "Next": "Z", "Retry": [{"ErrorEquals": ["EA"], "IntervalSeconds": 1, "MaxAttempts": 1, "BackoffRate": 1.0}],
+              "Branches": [{"StartAt": "A", "States": {"A": T("fa")}}, {"StartAt": "N", "States": {"N": npar}}]},
+        "Z": {"Type": "Pass", "End": True}}},
+        {"x": 1}, {"fa": [("err", "EA", "m"), ("ok",)], "fx": [("err", "EX", "m"), ("ok",)]}, {"fa": 5, "fx": 40}))
+    # … and while an event of the other branch is still on its way (published, not yet delivered): crash-free it is dropped when
+    # it is delivered, by the record that the attempt is over; after a crash it is taken up, the branch goes on to its Task and
+    # that Task's error, which the Retry does not match, ends the execution (C04-F9)
+    chain = {"StartAt": "X1", "States": {"X1": {"Type": "Pass", "Next": "X2"}, "X2": {"Type": "Pass", "Next": "X3"},
+                                         "X3": {"Type": "Pass", "Next": "X"}, "X": T("fx")}}
+    out.append(S("par-retry-vs-late-branch-fail", {"StartAt": "P", "States": {
+        "P": {"Type": "Parallel", "Next": "Z", "Retry": [{"ErrorEquals": ["EA"], "IntervalSeconds": 1, "MaxAttempts": 1, "BackoffRate": 1.0}],
+              "Branches": [{"StartAt": "A", "States": {"A": T("fa")}}, chain]},
+        "Z": {"Type": "Pass", "End": True}}},
+        {"x": 1}, {"fa": [("err", "EA", "m"), ("ok",)], "fx": [("err", "EX", "m"), ("ok",)]}, {"fa": 0, "fx": 40}))
+    # a Parallel state whose failure is caught while the other branch's Task is outstanding: the Task is cancelled, its event and
+    # the failing one are let go, the late reply is an orphan
+    out.append(S("par-catch-vs-pending-sibling", {"StartAt": "P", "States": {
+        "P": {"Type": "Parallel", "Next": "Z", "Catch": [{"ErrorEquals": ["EA"], "Next": "R"}],
+              "Branches": [{"StartAt": "A", "States": {"A": T("fa")}}, {"StartAt": "B", "States": {"B": T("fb", Next="B2"), "B2": {"Type": "Pass", "End": True}}}]},
+        "Z": {"Type": "Pass", "End": True}, "R": {"Type": "Pass", "Result": "recovered", "End": True}}},
+        {"x": 1}, {"fa": [("err", "EA", "m")], "fb": [("ok",)]}, {"fa": 5, "fb": 30}))
     # a synchronous child execution: the parent's pending request is keyed by the child's execution ARN, which has to be
-    # the same again when the parent's Task event is redelivered (with and without an explicit child Name)
+    # the same again when the parent's Task event is redelivered (with and without an explicit child Name); the child's
+    # result reaches the parent by a call inside the engine (C04-F8: the variant whose child goes on after its Task ends in
+    # a handler of its own, which after a restart may run before the parent's Task has registered its request again — under
+    # the second post-restart schedule, EVENTS_FIRST)
     child = {"StartAt": "C0", "States": {"C0": {"Type": "Pass", "Next": "C"}, "C": T("fc")}}
-    for tag, params in (("noname", {}), ("named", {"Name": "kid"})):
+    child2 = {"StartAt": "C", "States": {"C": T("fc", Next="D"), "D": {"Type": "Pass", "End": True}}}
+    for tag, params, kid in (("noname", {}, child), ("named", {"Name": "kid"}, child), ("task-pass", {}, child2)):
         par = {"StartAt": "A", "States": {
             "A": {"Type": "Pass", "Next": "P"},
             "P": {"Type": "Task", "Resource": "arn:aws:states:::states:startExecution.sync:2",
                   "Parameters": dict({"StateMachineArn": ARN + "child", "Input": {"a": 1}}, **params), "ResultPath": "$.kid", "Next": "Z"},
             "Z": {"Type": "Pass", "End": True}}}
         out.append(S("sync-child-" + tag, par, {"x": 1}, {"fc": [("ok",)]}, {"fc": 20},
-                     extra={"machines": {"child": (child, "STANDARD")}}))
+                     extra={"machines": {"child": (kid, "STANDARD")}, "restart_schedules": [None, EVENTS_FIRST]}))
     return out
+
+
+EVENTS_FIRST = "events-first"     # after the restart every ready event message is delivered before any timer runs
+
+
+def visit_attempt(s, correlation_id):
+    """which attempt the Task event `correlation_id` is: the RetryCount it carries plus those of the Parallel / Map states
+    around it (kept in the Branch frames of its context)"""
+    st = s.__dict__.setdefault("_visit_index", {"pos": 0, "att": {}})
+    log = s.broker.log
+    while st["pos"] < len(log):
+        fr = log[st["pos"]]
+        st["pos"] += 1
+        if fr["op"] == "publish" and str(fr.get("routing_key", "")).startswith("asl_workflow_events"):
+            try:
+                state = (json.loads(fr["body"].decode("utf8")).get("context") or {}).get("State") or {}
+            except Exception:
+                continue
+            n = lambda x: x if isinstance(x, int) and not isinstance(x, bool) else 0
+            st["att"][(fr.get("props") or {}).get("message_id")] = \
+                n(state.get("RetryCount")) + sum(n(f.get("RetryCount")) for f in (state.get("Branch") or []) if isinstance(f, dict))
+    return st["att"].get(cm_base(correlation_id))
 
 
 def start(scn, share_stores):
@@ -76,6 +143,12 @@ def start(scn, share_stores):
         base = pl.worker(fn)
 
         def plan(n, payload, _fn=fn, _base=base):
+            # which of its planned outcomes a worker gives depends on which attempt asks (first try, first retry … of the state
+            # or of the fan-out states around it), not on how many requests happened to reach it before: a request a crash
+            # keeps from being sent does not change what the others are answered, and a duplicate is answered like the original
+            k = visit_attempt(s, s.rpc_requests[-1]["correlation_id"]) if s.rpc_requests else None
+            if k is not None:
+                pl.seen[(_fn, enginerun.canon_payload(payload))] = k
             r = _base(n, payload)
             d = scn.delays.get((_fn, enginerun.canon_payload(payload)), scn.delays.get(_fn))
             if d is not None and r is not None and r.kind != "none":
@@ -87,9 +160,10 @@ def start(scn, share_stores):
     return s, ea
 
 
-def finish(s, ea, max_steps=1500, restart_dead=True):
-    """canonical schedule to the end; a dead instance is restarted as the next step"""
+def finish(s, ea, max_steps=1500, restart_dead=True, do=None):
+    """canonical schedule to the end; a dead instance is restarted as the next step (`do`: how a step is taken)"""
     g = None
+    do = do or s.do
     while s.steps < max_steps:
         if restart_dead and not s.instances[0].alive:
             s.do(("restart", 0))
@@ -101,14 +175,30 @@ def finish(s, ea, max_steps=1500, restart_dead=True):
         st = s.canonical_step()
         if st is None:
             break
-        s.do(st)
+        do(st)
+
+
+def reference(scn, share):
+    """the crash-free run under the canonical schedule, taken through a Labeller (the skeleton is read from it)"""
+    import crashmodel as cm
+    s, ea = start(scn, share)
+    lab = cm.Labeller(s)
+    finish(s, ea, do=lab.do)
+    return s, ea, lab
+
+
+def machines_of(scn):
+    out = {ARN + "m1": scn.machine}
+    for k, (m, t) in (scn.extra.get("machines") or {}).items():
+        out[ARN + k] = m
+    return out
 
 
 def observe(s, ea):
     fv = explore.final_view(s, ea)
     reqs = {}
     for q in s.rpc_requests:
-        reqs[q["correlation_id"]] = reqs.get(q["correlation_id"], 0) + 1
+        reqs[cm_base(q["correlation_id"])] = reqs.get(cm_base(q["correlation_id"]), 0) + 1
     terms = [n["body"]["detail"]["status"] for n in s.notifications
              if n["body"] and n["body"].get("detail", {}).get("executionArn") == ea and n["body"]["detail"]["status"] != "RUNNING"]
     return fv, reqs, terms
@@ -156,8 +246,16 @@ def classify(f, case, impl, model):
 
 def stuck_detail(s, fv):
     v = s.snapshot_volatile() or {}
-    sent = {q["correlation_id"] for q in s.rpc_requests}
-    unsent = [p for p in v.get("pending", []) if p not in sent]
+    sent = {cm_base(q["correlation_id"]) for q in s.rpc_requests}
+    # a request for a synchronous child is keyed by the child's execution ARN: it was "sent" when an execution with that ARN
+    # was started, and its answer is "gone" once that execution has ended (the answer is a call inside the engine)
+    started, over = set(), set()
+    for n in s.notifications:
+        d = (n["body"] or {}).get("detail", {}) if n["body"] else {}
+        if d.get("executionArn"):
+            (started if d.get("status") == "RUNNING" else over).add(d["executionArn"])
+    is_arn = lambda p: str(p).startswith("arn:aws:states:")
+    unsent = [p for p in v.get("pending", []) if (p not in started if is_arn(p) else cm_base(p) not in sent)]
     # replies already consumed (delivered and acknowledged) by an engine connection that has since died
     lost_at = [fr["n"] for fr in s.broker.log if fr["op"] == "connection_lost"]
     consumed = set()
@@ -165,18 +263,9 @@ def stuck_detail(s, fv):
         last = lost_at[-1]
         for fr in s.broker.log:
             if fr["n"] < last and fr["op"] == "ack" and str(fr.get("queue", "")).startswith("asl_workflow_reply_to"):
-                consumed.add(fr.get("correlation_id"))
-    reply_consumed = [p for p in v.get("pending", []) if p in consumed]
-    # a request for a synchronous child is keyed by the child's execution ARN: "never requested" means that no execution
-    # of that child machine was ever started; a pending ARN that differs from the child that *was* started is a different matter
-    started = {n["body"]["detail"]["executionArn"] for n in s.notifications
-               if n["body"] and n["body"].get("detail", {}).get("status") == "RUNNING"}
-    rekeyed = [p for p in unsent if str(p).startswith("arn:aws:states:") and p not in started
-               and any(e.rsplit(":", 1)[0] == str(p).rsplit(":", 1)[0] for e in started)]
-    if rekeyed:
-        return {"final": fv, "pending_for_a_child_that_was_never_started": rekeyed,
-                "children_started": sorted(e for e in started if e.rsplit(":", 1)[0] == rekeyed[0].rsplit(":", 1)[0]),
-                "volatile": v, "crashes": s.crashes}
+                consumed.add(cm_base(fr.get("correlation_id")))
+    reply_consumed = [p for p in v.get("pending", []) if (p in started and p in over if is_arn(p) else cm_base(p) in consumed)]
+    rekeyed = [p for p in unsent if is_arn(p) and any(e.rsplit(":", 1)[0] == str(p).rsplit(":", 1)[0] for e in started)]
     # branch events of a *nested* fan-out (Branch stack of depth >= 2) that the engine acknowledged before a crash: the
     # nested join had completed, its result living only in the enclosing join's volatile slots (C04-F4)
     depth = {}
@@ -194,13 +283,31 @@ def stuck_detail(s, fv):
             if fr["n"] < lost_at[-1] and fr["op"] == "ack" and str(fr.get("queue", "")).startswith("asl_workflow_events") \
                     and depth.get(fr.get("message_id"), 0) >= 2:
                 nested_acked.append(fr.get("message_id"))
-    return {"final": fv, "pending_unsent": unsent, "pending_reply_consumed": reply_consumed,
-            "nested_join_events_acked_before_crash": nested_acked,
-            "held_in_fanout": bool(v.get("branch_metadata")), "volatile": v, "crashes": s.crashes}
+    # executions whose start event was delivered again after a crash (it starts the execution again: C04-F10)
+    starts = {}
+    for fr in s.broker.log:
+        if fr["op"] == "publish" and str(fr.get("routing_key", "")).startswith("asl_workflow_events"):
+            try:
+                ctx = json.loads(fr["body"].decode("utf8")).get("context") or {}
+            except Exception:
+                continue
+            if not (ctx.get("State") or {}).get("Name"):
+                starts[(fr.get("props") or {}).get("message_id")] = (ctx.get("Execution") or {}).get("Id")
+    restarted = sorted({starts[fr.get("message_id")] for fr in s.broker.log
+                        if fr["op"] == "deliver" and fr.get("redelivered") and starts.get(fr.get("message_id"))})
+    out = {"final": fv, "pending_unsent": unsent, "pending_reply_consumed": reply_consumed, "start_event_redelivered": restarted,
+           "nested_join_events_acked_before_crash": nested_acked,
+           "held_in_fanout": bool(v.get("branch_metadata")), "volatile": v, "crashes": s.crashes}
+    if rekeyed:
+        # pending under an ARN that differs from the child that *was* started
+        out["pending_for_a_child_that_was_never_started"] = rekeyed
+        out["children_started"] = sorted(e for e in started if e.rsplit(":", 1)[0] == rekeyed[0].rsplit(":", 1)[0])
+    return out
 
 
-OPEN_SWITCH = {"C04-F1": "F1", "C04-F2": "F2", "C04-F4": "F4"}          # finding -> switch of AslModel/Crash.lean (Quirks)
+# finding -> switch of AslModel/Crash.lean (Quirks), in the driver's short names
 # (findings/C04.json names the switch of each open finding in `model_switch`; this table is the default)
+OPEN_SWITCH = {"C04-F1": "F1", "C04-F2": "F2", "C04-F4": "F4", "C04-F7": "F7", "C04-F8": "F8", "C04-F9": "F9"}
 
 
 def switch_of(f):
@@ -209,6 +316,27 @@ def switch_of(f):
     return short.get(f.get("model_switch")) or OPEN_SWITCH.get(f.get("id"))
 LEGACY = {"C04-F1": "redelivered-task-never-requested", "C04-F2": "branch-reply-consumed-before-crash",
           "C04-F4": "nested-join-result-volatile"}
+
+
+def mask_start(x, arns):
+    """the StartDate in the records of the executions `arns`, masked"""
+    if isinstance(x, dict):
+        hit = x.get("ExecutionArn") in arns
+        return {k: ("<date>" if hit and k == "StartDate" else mask_start(v, arns)) for k, v in x.items()}
+    if isinstance(x, list):
+        return [mask_start(v, arns) for v in x]
+    return x
+
+
+def classify_by_hand(f, case, impl, model):
+    """findings about data the protocol model does not have"""
+    if f.get("classifier") == "child-start-event-redelivered":
+        # C04-F10: the final status / output differ from the crash-free run's in nothing but the StartDate reported for child
+        # executions whose start event was delivered a second time after the crash
+        arns = set(impl.get("start_event_redelivered") or []) if isinstance(impl, dict) else set()
+        return bool(arns) and isinstance(model, dict) and isinstance(impl.get("final"), dict) \
+            and cj(impl["final"]) != cj(model) and cj(mask_start(impl["final"], arns)) == cj(mask_start(model, arns))
+    return False
 
 
 def model_skeleton(chk, scn, s, ea):
@@ -227,14 +355,16 @@ def model_skeleton(chk, scn, s, ea):
 
 
 def classify_by_model(f, case, impl, model):
-    """A stuck run is the known finding `f` exactly when the protocol model (lean/AslModel/Crash.lean) with the switches
-    of all open findings on reproduces what the engine did, and with `f`'s switch off it does not (`explained_by`, computed
-    in `settle`).  Scenarios outside the model's skeletons (synchronous children, fan-outs whose failure is handled …) fall
-    back on the hand-written classifier."""
+    """A crash run that breaks one of the laws is the known finding `f` exactly when the protocol model (lean/AslModel/Crash.lean)
+    with the switches of all open findings on reproduces what the engine did, and with `f`'s switch off it does not
+    (`explained_by`, computed in `settle`).  Runs the model cannot follow (no skeleton, no schedule, a path the crash-free run
+    never took) fall back on the hand-written classifier."""
     if isinstance(impl, dict) and "explained_by" in impl:
-        return f.get("id") in impl["explained_by"]
-    if isinstance(impl, dict) and impl.get("model") == "unsupported":
-        return classify(dict(f, classifier=LEGACY.get(f.get("id"), f.get("classifier"))), case, impl, model)
+        if f.get("id") in impl["explained_by"]:
+            return True
+        return not impl["explained_by"] and classify_by_hand(f, case, impl, model)
+    if isinstance(impl, dict) and impl.get("model") == "unsupported" and LEGACY.get(f.get("id")):
+        return classify(dict(f, classifier=LEGACY[f["id"]]), case, impl, model)
     return False
 
 
@@ -247,23 +377,22 @@ class ModelSide(object):
         self.open = sorted(set(self.switch.values()))
         self.runs = []
 
-    def add(self, case, between, skel, sched, eo, diverged, problem):
+    def add(self, case, between, skel, sched, eo, problem):
         """`problem`: None or (kind, impl, model, law) — an engine-side law the run broke"""
-        self.runs.append({"case": case, "between": between, "skel": skel, "sched": sched, "eo": eo, "diverged": diverged,
-                          "problem": problem})
+        self.runs.append({"case": case, "between": between, "skel": skel, "sched": sched, "eo": eo, "problem": problem})
 
     def settle(self):
         import crashmodel as cm
         chk = self.chk
         lines, owners = [], []
         for i, r in enumerate(self.runs):
-            if r["skel"] is None or r["sched"] is None or r["diverged"]:
+            if r["skel"] is None or r["sched"] is None:
                 continue
             variants = [self.open]
             if r["problem"] is not None:
                 variants += [[x for x in self.open if x != sw] for sw in self.open]
             for v in variants:
-                lines.append(cm.line(v, r["skel"], r["sched"]))
+                lines.append(cm.line(v, r["skel"], r["sched"], lenient=v is not self.open))
                 owners.append((i, tuple(v)))
         answers = {}
         for (i, v), a in zip(owners, common.driver(lines, shards=8)):
@@ -271,13 +400,16 @@ class ModelSide(object):
             answers[(i, v)] = json.loads(parts[1]) if parts[0] == "ok" else None
         for i, r in enumerate(self.runs):
             case, prob = r["case"], r["problem"]
+            m_all = answers.get((i, tuple(self.open)))
+            supported = r["skel"] is not None and r["sched"] is not None
             if r["skel"] is None:
                 chk.dist("model.unsupported_scenario")
             elif r["sched"] is None:
                 chk.dist("model.no_schedule")
-            elif r["diverged"]:
+            elif m_all is not None and m_all.get("diverged"):
+                # the run has left the paths the crash-free run took (the skeleton says "?" there): the model has no answer
                 chk.dist("model.path_diverged")
-            supported = r["skel"] is not None and r["sched"] is not None and not r["diverged"]
+                supported = False
             if not supported:
                 if prob is not None:
                     kind, impl, model, law = prob
@@ -287,10 +419,9 @@ class ModelSide(object):
                     chk.report(kind, case, impl=impl, model=model, law=law, classify=classify_by_model)
                 continue
             ev = cm.engine_view(r["eo"], r["between"])
-            m_all = answers.get((i, tuple(self.open)))
             if m_all is None or not m_all.get("sync"):
                 chk.dist("model.out_of_sync")
-                chk.report("impl-differs-from-spec", case, impl={"engine": ev, "schedule": r["sched"][-6:]}, model=m_all,
+                chk.report("impl-differs-from-spec", case, impl={"engine": ev, "skeleton": r["skel"], "schedule": r["sched"][-8:]}, model=m_all,
                            law="the engine's handler invocations are operations the crash protocol model has enabled")
                 continue
             mv = cm.view(m_all, r["between"])
@@ -300,8 +431,8 @@ class ModelSide(object):
                 chk.report("impl-differs-from-spec", case, impl={"engine": ev, "skeleton": r["skel"], "schedule": r["sched"][-8:]},
                            model={"switches": self.open, "predicts": mv},
                            law="the crash protocol model (AslModel/Crash.lean) with the open findings' switches on predicts whether "
-                               "the execution ends, what it is left waiting for, and (crash between handlers) that no request is "
-                               "sent twice and one terminal notification")
+                               "the execution ends and how (failed or not), what it is left waiting for, and (crash between handlers) "
+                               "that no request is sent twice, how many requests are sent and one terminal notification")
                 continue
             if prob is not None:
                 kind, impl, model, law = prob
@@ -309,16 +440,56 @@ class ModelSide(object):
                 for f, sw in sorted(self.switch.items()):
                     if sw in self.open:
                         m_wo = answers.get((i, tuple(x for x in self.open if x != sw)))
-                        # (a model that cannot even follow the engine's handler invocations does not reproduce the run)
-                        if m_wo is None or not m_wo.get("sync") or cj(cm.view(m_wo, r["between"])) != cj(ev):
+                        # (the protocol without the switch is asked what it does under this schedule, leaving out the handler
+                        # invocations it does not have: a switch changes which there are)
+                        if m_wo is None or m_wo.get("diverged") or cj(cm.view(m_wo, r["between"])) != cj(ev):
                             explained.append(f)
                 if isinstance(impl, dict):
                     impl = dict(impl, explained_by=explained, model_predicts=mv)
                 else:
                     impl = {"observed": impl, "explained_by": explained, "model_predicts": mv}
                 for f in explained:
-                    chk.dist("stuck.explained_by.%s" % f)
-                chk.report(kind, case, impl=impl, model=model, law=law, classify=classify_by_model)
+                    chk.dist("explained_by.%s" % f)
+                if chk.report(kind, case, impl=impl, model=model, law=law, classify=classify_by_model) == "known":
+                    # (one symptom may need several of the deviations — C04-F8's window exists because of C04-F1's deferred
+                    # handler —: the run counts for each finding whose switch it needs; `report` has counted the first)
+                    first = [f["id"] for f in chk.open_findings if f["id"] in explained][:1]
+                    for f in explained:
+                        if f not in first:
+                            chk.known_hit[f] = chk.known_hit.get(f, 0) + 1
+
+
+def request_bag(s):
+    """the requests the workers received: (queue, canonical payload — engine-generated Cause texts masked), sorted"""
+    return sorted((q["queue"], enginerun.canon_payload(enginerun.mask_cause(q["payload"]))) for q in s.rpc_requests)
+
+
+def after_restart(s, lab, mode):
+    """the first steps after the restart, when they are not the canonical ones"""
+    if mode == EVENTS_FIRST:
+        for _ in range(50):
+            en = [x for x in s.enabled() if x[0] == "deliver" and x[1].startswith("asl_workflow_events")]
+            if not en:
+                break
+            lab.do(en[0])
+
+
+def crash_between(scn, share, prefix, mode=None):
+    """run the steps `prefix` of the canonical run, kill the engine, restart it and let it finish; None when the execution
+    had ended before.  Returns (sim, execution arn, labeller)."""
+    import crashmodel as cm
+    s, ea = start(scn, share)
+    lab = cm.Labeller(s)
+    for st in prefix:
+        lab.do(tuple(st))
+    if explore.terminal_seen(s, ea):
+        s.close()
+        return None
+    lab.do(("crash", 0))
+    s.do(("restart", 0))
+    after_restart(s, lab, mode)
+    finish(s, ea, do=lab.do)
+    return s, ea, lab
 
 
 def run(chk):
@@ -328,40 +499,42 @@ def run(chk):
     scns = scenarios(thorough=not quick)
     n_between = n_mid = 0
     side = ModelSide(chk)
+    for key in ("skeleton.unsupported", "model.unsupported_scenario", "model.no_schedule", "model.path_diverged", "model.out_of_sync",
+                "classified.by_fallback"):
+        chk.dist(key, 0)        # (always in the evidence, so that runs can be compared)
     for scn in scns:
         for share in (True, False):
             # reference run
-            s, ea = start(scn, share)
-            finish(s, ea)
+            s, ea, rlab = reference(scn, share)
             ref, ref_reqs, _ = observe(s, ea)
             ref_trace = list(s.trace)
+            ref_bag = request_bag(s)
             ops = s.broker.op_count.get("conn1", 0)
-            ref_hist = s.history(ea)
-            # the skeleton: computed by the reference semantics from the machine, the input and the workers' behaviour
-            # (`sk` of Asl.run); what the engine's own events say is only the cross-check
+            # the skeleton is read off the labelled crash-free run of the engine (the only source that has child executions,
+            # handled failures and RetryCounts); where the reference semantics has a word for it (`sk` of Asl.run's outcome:
+            # the state visits from machine, input and worker behaviour alone) the two must agree
             try:
-                skel_engine = cm.skeleton(scn.machine, s.broker.log, ref.get("status") == "FAILED")
+                skel = cm.skeleton(machines_of(scn), rlab, scn.plans)
             except cm.Unsupported as e:
-                skel_engine = None
-            skel = model_skeleton(chk, scn, s, ea)
-            if skel is not None:
-                chk.dist("skeleton.extracted")          # (the name the distribution had before: a skeleton there is)
-                chk.dist("skeleton.from_reference_semantics")
-                if skel_engine is not None and cj(skel_engine) == cj(skel):
-                    chk.dist("skeleton.engine_events_agree")
-                elif skel_engine is not None:
+                skel = None
+                chk.dist("skeleton.unsupported")
+            else:
+                chk.dist("skeleton.extracted")
+                ref_sk = model_skeleton(chk, scn, s, ea)
+                mine = cm.legacy_view(skel)
+                if ref_sk is None or mine is None:
+                    chk.dist("skeleton.reference_semantics_has_no_word")
+                elif '"X"' in cj(ref_sk) or '"X"' in cj(mine):
+                    # (a fan-out attempt failed: the engine cuts the siblings short where the reference semantics runs every
+                    # branch to its end — C06's subject; the visits are not comparable one to one)
+                    chk.dist("skeleton.reference_semantics_not_compared_fanout_failed")
+                elif cj(ref_sk) == cj(mine):
+                    chk.dist("skeleton.reference_semantics_agrees")
+                else:
                     chk.report("impl-differs-from-spec", {"scenario": scn.name, "machine": scn.machine, "input": scn.data, "plans": scn.plans},
-                               impl={"skeleton_from_engine_events": skel_engine}, model={"skeleton": skel},
+                               impl={"skeleton_from_engine_events": mine}, model={"skeleton": ref_sk},
                                law="the visits of the crash-free run (the events the engine published) are the skeleton the "
                                    "reference semantics computes")
-                else:
-                    chk.dist("skeleton.engine_events_unsupported")
-            elif skel_engine is not None:
-                skel = skel_engine
-                chk.dist("skeleton.extracted")
-                chk.dist("skeleton.from_engine_events_only")
-            else:
-                chk.dist("skeleton.unsupported")
             s.close()
             if ref.get("status") not in ("SUCCEEDED", "FAILED"):
                 raise common.InfraError("reference run of %s did not terminate" % scn.name)
@@ -372,46 +545,50 @@ def run(chk):
             if len(between) > 80:       # long generated scenarios of the shared corpus: a seeded sample of their crash points
                 between = sorted(chk.rng.sample(between, 80))
                 chk.dist("crash.points_sampled")
-            for i in between:
-                s, ea = start(scn, share)
-                lab = cm.Labeller(s)
-                for st in ref_trace[:i]:
-                    lab.do(st)
-                if explore.terminal_seen(s, ea):
-                    s.close()
-                    break
-                lab.do(("crash", 0))
-                s.do(("restart", 0))
-                finish(s, ea)
-                fv, reqs, terms = observe(s, ea)
-                n_between += 1
-                case = {"scenario": scn.name, "machine": scn.machine, "input": scn.data, "plans": scn.plans, "store": store,
-                        "crash": {"kind": "between-handlers", "after_step": i, "prefix": [list(x) for x in ref_trace[:i]]}}
-                chk.count(cj([scn.name, store, "between", i]), True)
-                chk.dist("crash.between_handlers")
-                problem = None
-                detail = None
-                if s.errors:
-                    chk.report("impl-violates-law", case, impl={"errors": s.errors[:1]}, law="no exception escapes after a restart")
-                elif cj(undated(fv, share)) != cj(undated(ref, share)):
-                    detail = stuck_detail(s, fv)
-                    problem = ("impl-violates-law", detail, ref,
-                               "a crash between two event handlings does not change the terminal status and output")
-                elif any(v > 1 for v in reqs.values()):
-                    problem = ("impl-violates-law", {"requests_per_correlation_id": reqs}, None,
-                               "a task whose request was already sent is not requested again after the restart")
-                elif len(terms) != 1:
-                    problem = ("impl-violates-law", {"terminal_notifications": terms}, None,
-                               "exactly one terminal notification also across a restart between handlers")
-                if not s.errors:
-                    if detail is None and fv.get("status") not in ("SUCCEEDED", "FAILED"):
+            for mode in scn.extra.get("restart_schedules", [None]):
+                for i in between:
+                    r = crash_between(scn, share, ref_trace[:i], mode)
+                    if r is None:
+                        break
+                    s, ea, lab = r
+                    fv, reqs, terms = observe(s, ea)
+                    n_between += 1
+                    case = {"scenario": scn.name, "machine": scn.machine, "input": scn.data, "plans": scn.plans, "store": store,
+                            "crash": {"kind": "between-handlers", "after_step": i, "prefix": [list(x) for x in ref_trace[:i]]}}
+                    if mode is not None:
+                        case["crash"]["after_restart"] = mode
+                    chk.count(cj([scn.name, store, "between", i, mode]), True)
+                    chk.dist("crash.between_handlers" + ("." + mode if mode else ""))
+                    problem = None
+                    detail = None
+                    if s.errors:
+                        chk.report("impl-violates-law", case, impl={"errors": s.errors[:1]}, law="no exception escapes after a restart")
+                    elif cj(undated(fv, share)) != cj(undated(ref, share)):
                         detail = stuck_detail(s, fv)
-                    side.add(case, True, skel, lab.schedule() if skel is not None else None,
-                             cm.engine_observation(s, ea, fv, terms, reqs, detail),
-                             skel is not None and cm.path_diverged(skel, ref_hist, s.history(ea)), problem)
-                if len(chk.cov["samples"]) < 3 and i == term_at // 2:
-                    chk.sample({"scenario": scn.name, "store": store, "crash_after_step": i, "final": fv, "reference": ref})
-                s.close()
+                        problem = ("impl-violates-law", detail, ref,
+                                   "a crash between two event handlings does not change the terminal status and output")
+                    elif any(v > 1 for v in reqs.values()):
+                        problem = ("impl-violates-law", {"requests_per_correlation_id": reqs}, None,
+                                   "a task whose request was already sent is not requested again after the restart")
+                    elif len(terms) != 1:
+                        problem = ("impl-violates-law", {"terminal_notifications": terms}, None,
+                                   "exactly one terminal notification also across a restart between handlers")
+                    elif any(request_bag(s).count(x) > ref_bag.count(x) for x in set(request_bag(s))):
+                        # (a request that is never sent while the outcome stays the same is no concern of the property)
+                        bag = request_bag(s)
+                        problem = ("impl-violates-law",
+                                   {"extra_requests": sorted(x for x in set(bag) if bag.count(x) > ref_bag.count(x)),
+                                    "requests": len(bag)}, {"requests": len(ref_bag)},
+                                   "with the same outcome, the workers receive no request (queue and payload, with multiplicity) "
+                                   "beyond those of the crash-free run: no task is requested again under another correlation id")
+                    if not s.errors:
+                        if detail is None and fv.get("status") not in ("SUCCEEDED", "FAILED"):
+                            detail = stuck_detail(s, fv)
+                        side.add(case, True, skel, lab.schedule(ea) if skel is not None else None,
+                                 cm.engine_observation(s, ea, fv, terms, reqs, detail), problem)
+                    if len(chk.cov["samples"]) < 3 and i == term_at // 2:
+                        chk.sample({"scenario": scn.name, "store": store, "crash_after_step": i, "final": fv, "reference": ref})
+                    s.close()
             # --- crash after an individual broker operation inside a handler (and a second crash later, thorough)
             step_ops = range(1, ops + 1) if (not quick or ops <= 40) else range(1, ops + 1, 2)
             if len(step_ops) > 120:
@@ -440,11 +617,7 @@ def run(chk):
                         st = s.canonical_step()
                         if st is None:
                             break
-                        # the handler invocations up to the last crash are the schedule the model is given
-                        if len(s.crashes) < crashes_wanted:
-                            lab.do(st)
-                        else:
-                            s.do(st)
+                        lab.do(st)
                     fv, reqs, terms = observe(s, ea)
                     n_mid += 1
                     case = {"scenario": scn.name, "machine": scn.machine, "input": scn.data, "plans": scn.plans, "store": store,
@@ -463,28 +636,36 @@ def run(chk):
                         problem = ("impl-violates-law", fv, ref,
                                    "the terminal status is that of the crash-free run (duplicates of non-terminal effects are allowed)")
                     if not s.errors:
-                        sched = lab.schedule() if skel is not None else None
-                        side.add(case, False, skel, cm.upto_last_crash(sched) if sched is not None else None,
-                                 cm.engine_observation(s, ea, fv, terms, reqs, detail),
-                                 skel is not None and cm.path_diverged(skel, ref_hist, s.history(ea)), problem)
+                        sched = lab.schedule(ea) if skel is not None else None
+                        if skel is not None and sched is None:
+                            chk.dist("model.no_schedule.because.%s" % ",".join(getattr(lab, "why", ["?"])))
+                        side.add(case, False, skel, sched,
+                                 cm.engine_observation(s, ea, fv, terms, reqs, detail), problem)
                     s.close()
     side.settle()
     chk.cov["streams"]["between_handler_crash_points"] = n_between
     chk.cov["streams"]["broker_operation_crash_points"] = n_mid
-    chk.cov["rule"] = ("8 scenarios (Task+Wait, two Tasks, Retry, Catch->Fail, Choice+Wait, Parallel success, Map with MaxConcurrency, "
-                       "Parallel with a failing branch) x {stores shared across the restart (Redis-like), executions store lost (file "
-                       "configuration)} x every crash point between two handler invocations of the canonical run (same status/output, "
-                       "<= 1 request per correlation id, one terminal notification) and every%s crash point after an individual "
+    chk.cov["rule"] = ("%d scenarios (Task+Wait, two Tasks, Retry, Catch->Fail, Choice+Wait, Parallel success, Map with MaxConcurrency "
+                       "(all-Task iterations; Task->Pass iterations over two batches), Parallel with a failing branch, Parallel retried while a nested Parallel of another branch has a Task outstanding / while an event of another branch is on its way, Parallel whose failure is caught while a sibling's Task is outstanding, synchronous child "
+                       "executions (unnamed, named, child ending in a handler of its own)%s) x {stores shared across the restart "
+                       "(Redis-like), executions store lost (file configuration)} x every crash point between two handler invocations "
+                       "of the canonical run (same status/output, <= 1 request per correlation id, one terminal notification, the same "
+                       "multiset of (queue, payload) requests as crash-free; for the child scenarios also under a second post-restart "
+                       "schedule: ready event messages before timers) and every%s crash point after an individual "
                        "publish/ack of the engine connection (terminal status still reached and equal)%s; restart = new engine objects, "
-                       "same instance id, broker redelivers what was unacknowledged; distinct = distinct (scenario, store, crash point); "
+                       "same instance id, broker redelivers what was unacknowledged; a worker's planned outcomes are indexed by which "
+                       "attempt (RetryCount of the state and of the fan-out states around it) asks; distinct = distinct (scenario, store, crash point, restart schedule); "
                        "every crash run is also given to the crash protocol model (lean/AslModel/Crash.lean): the skeleton of the "
-                       "execution as Asl.run computes it from machine, input and worker behaviour (cross-checked against the events "
-                       "the crash-free run published), the schedule from the run's handler invocations "
+                       "execution from the events the crash-free run published (Task visits with their RetryCount, child executions, "
+                       "failing visits with the enclosing state that handles them decided from the definition and the continuation "
+                       "the crash-free run took, '?' for paths it did not take), the schedule from the run's handler invocations "
                        "(events by publication ordinal, the crash as an operation or as a cut after the k-th publish/ack of a "
-                       "handler); with the switches of the open findings on the model must predict whether the execution ends and "
-                       "what it is left waiting for (model.* in the distribution); a stuck run is the known finding f exactly when "
-                       "the model reproduces it with f's switch on and not with it off"
-                       % (" (every 2nd when > 40)" if quick else "", "" if quick else " incl. a second crash 2 operations after the restart"))
+                       "handler); with the switches of the open findings on the model must predict whether the execution ends, "
+                       "failed or not, what it is left waiting for and (between handlers) the requests sent (model.* in the "
+                       "distribution; model.path_diverged: the model reached a '?'); a run that breaks a law is the known finding f "
+                       "exactly when the model reproduces it with f's switch on and not with it off"
+                       % (len(scenarios(False)), "" if quick else " + the shared engine corpus",
+                          " (every 2nd when > 40)" if quick else "", "" if quick else " incl. a second crash 2 operations after the restart"))
     chk.cov["exhaustive"] = not quick
 
 
@@ -495,36 +676,30 @@ def replay(chk, path):
     c = rp["case"]
     scn = [x for x in scenarios(thorough=True) if x.name == c["scenario"]][0]
     share = c["store"] == "shared-store"
-    s, ea = start(scn, share)
-    finish(s, ea)
+    s, ea, rlab = reference(scn, share)
     ref, _, _ = observe(s, ea)
     try:
-        skel = cm.skeleton(scn.machine, s.broker.log, ref.get("status") == "FAILED")
+        skel = cm.skeleton(machines_of(scn), rlab, scn.plans)
     except cm.Unsupported as e:
         skel = None
         print("skeleton: unsupported (%s)" % e)
     s.close()
-    s, ea = start(scn, share)
-    lab = cm.Labeller(s)
     cr = c["crash"]
     if cr["kind"] == "between-handlers":
-        for st in cr["prefix"]:
-            lab.do(tuple(st))
-        lab.do(("crash", 0))
-        s.do(("restart", 0))
-        finish(s, ea)
-        sched = lab.schedule()
+        s, ea, lab = crash_between(scn, share, cr["prefix"], cr.get("after_restart"))
+        sched = lab.schedule(ea)
     else:
         # (the first crash only: a second one, `second`, is part of the run of the check, not of this replay)
+        s, ea = start(scn, share)
+        lab = cm.Labeller(s)
         s.broker.crash_plan = ("conn1", cr["n"])
         while s.steps < 1500 and not s.crashes:
             st = s.canonical_step()
             if st is None:
                 break
             lab.do(st)
-        sched = lab.schedule()
-        sched = cm.upto_last_crash(sched) if sched is not None else None
-        finish(s, ea)
+        finish(s, ea, do=lab.do)
+        sched = lab.schedule(ea)
     if skel is not None and sched is not None:
         chk.lean_stage()
         opened = sorted(set(switch_of(f) for f in chk.open_findings if switch_of(f)))
@@ -532,6 +707,7 @@ def replay(chk, path):
             print("model %s:" % (",".join(sw) or "no switch"), common.driver([cm.line(sw, skel, sched)])[0])
         print("skeleton:", cj(skel))
         print("schedule:", cj(sched))
+    print("reference:", cj(ref))
     print("final:", cj(explore.final_view(s, ea)), "crashes:", s.crashes, "errors:", s.errors[:1])
     print("requests:", [(q["t"], q["queue"], q["correlation_id"][-4:]) for q in s.rpc_requests])
     print("volatile:", s.snapshot_volatile())
